@@ -131,7 +131,7 @@ _LOGIT = st.integers(-12, 12).map(lambda k: k / 4)
 @st.composite
 def _loss_case(draw, tier):
     big = tier == "thorough"
-    N = draw(st.integers(1, 3))
+    N = draw(st.sampled_from([1, 2, 2, 3, 3]))
     R = draw(st.integers(1, 8 if big else 6))
     H = draw(st.integers(1, 6 if big else 4))
     A = draw(st.sampled_from([1, 2, 3, 3, 4]))
@@ -163,15 +163,15 @@ def _loss_case(draw, tier):
         "costs": draw(G.dyadic_costs(force_ties=True)),
         "include_eos": include_eos,
         "batch_first": draw(st.booleans()),
-        "reduction": draw(st.sampled_from(["none", "none", "sum", "mean"])),
+        "reduction": draw(st.sampled_from(["none", "sum", "mean", "mean"])),
         "ignore_index": draw(st.sampled_from([-2, -100])),
         "entry": draw(st.sampled_from(["function", "module"])),
     }
 
 
-@subcheck("C03", "ocd_loss", lambda tier: _loss_case(tier), 1500, 30000,
+@subcheck("C03", "ocd_loss", lambda tier: _loss_case(tier), 2500, 50000,
           doc="hard OCD loss vs mean over the oracle's target set of -log softmax(logits)[t] (x class weight), 0 where the set is empty or the prefix does not exist; none / sum exact, mean in any of its natural readings",
-          required_classes=["multi_target", "empty_target_set", "reduction_sum", "reduction_mean", "weighted"])
+          required_classes=["multi_target", "empty_target_set", "reduction_sum", "reduction_mean", "weighted", "mean_ragged_target_counts"])
 def _ocd_loss(case):
     import torch
 
@@ -237,7 +237,22 @@ def _ocd_loss(case):
         require(any(close(got.item(), c, rel=2e-5, abs_=1e-5) for c in cands), "mean-reduced loss", got.item(), cands)
         lo, hi = min(flat), max(flat)
         require(lo - 1e-5 <= got.item() <= hi + 1e-5, "mean-reduced loss outside the range of the unreduced values", got.item(), [lo, hi])
+    # metamorphic: the other memory layout of the same data gives the same reduced loss
+    if red != "none":
+        ref2, hyp2 = G.to_tensors(b, not case["batch_first"])
+        logits2 = torch.tensor(case["logits"], dtype=torch.float)
+        if case["batch_first"]:
+            logits2 = logits2.transpose(0, 1).contiguous()
+        kw2 = dict(kw, batch_first=not case["batch_first"])
+        with warnings.catch_warnings():
+            warnings.simplefilter("ignore")
+            other = F.hard_optimal_completion_distillation_loss(logits2, ref2, hyp2, warn=False, **kw2)
+        require(close(got.item(), other.item(), rel=2e-5, abs_=1e-5), "reduced loss differs between batch_first layouts of the same data",
+                got.item(), other.item())
+    tcounts = [sum(hr) for hr in has]
     cl = ["reduction_" + red, "entry_" + case["entry"], "eos_" + b["eos_kind"], G.cost_class(case["costs"])]
+    if red == "mean" and len(set(tcounts)) > 1:
+        cl.append("mean_ragged_target_counts")
     if multi:
         cl.append("multi_target")
     if empty_set:
@@ -299,3 +314,28 @@ def _independence(case):
                     c_ = sorted(t for t in alt[n][k] if t != pad)
                     require(a == c_, "targets changed when post-eos tokens were rewritten (pair %d prefix %d)" % (n, k), c_, a)
     return Info(nontrivial=bool(cl), classes=cl)
+
+
+@st.composite
+def _long_case(draw, tier):
+    return {
+        "b": draw(G.long_batch(tier, max_n=2)),
+        "costs": draw(G.dyadic_costs(force_ties=True)),
+        "include_eos": draw(st.booleans()),
+        "batch_first": draw(st.booleans()),
+        "exclude_last": draw(st.booleans()),
+        "padding": -100,
+        "entry": "function",
+    }
+
+
+@subcheck("C03", "long_pairs", lambda tier: _long_case(tier), 150, 2500,
+          doc="references of 10..40 (thorough ..100) tokens with many repeats and hypotheses derived by edit runs: targets vs the DP lemma",
+          required_classes=["len_ge_16"])
+def _long_pairs(case):
+    info = _oc_check(case, brute=False)
+    m = max(len(r) for r in case["b"]["refs"])
+    if m >= 16:
+        info.classes.append("len_ge_16")
+    info.nontrivial = True
+    return info
